@@ -8,7 +8,7 @@ from harness import pktutil as pu
 
 ID = "C19"
 REQUIRED_THEOREMS = ["rows_small", "rows_large", "rows_large_count", "rows_are_sublist", "index_valid", "index_out_of_range"]
-RULE = ("requests `rows <n>` and `index <n> <i>`: packet files of n = 0..25 packets (sequence count = index) run through "
+RULE = ("requests `rows <n>` and `index <n> <i>`: packet files of n = 0..25 packets (sequence count = 8186 + index, crossing 8191 -> 8192; other header fields varied) run through "
         "`spp describe-packets` and `spp parse --packet i` (i = -1..n+1) with click's CliRunner in-process; rows are "
         "recovered from rich's table output; the live MAX_ROWS / HEAD_ROWS constants are compared with the model's; "
         "exhaustive over that range; non-trivial = n >= 1; distinct = distinct request line")
@@ -59,10 +59,15 @@ def generate(rng, tier):
             yield f"index {n} {i}", "parse-index"
 
 
+# packet i carries sequence count BASE + i (the listing is read back through that column); the counts cross 8191 -> 8192
+BASE = 8186
+
+
 def packet_file(n, d):
     import random
     rng = random.Random(n)
-    data = b"".join(pu.mk_packet(rng, 1, sc=i, apid=100 + (i % 3), sf=3, ver=0, typ=0, shf=0) for i in range(n))
+    data = b"".join(pu.mk_packet(rng, 1, sc=BASE + i, apid=100 + (i % 3) * 700, sf=i % 4, ver=i % 8, typ=i % 2,
+                                 shf=(i // 2) % 2) for i in range(n))
     p = os.path.join(d, f"p{n}.bin")
     with open(p, "wb") as f:
         f.write(data)
@@ -90,7 +95,7 @@ def impl(line):
             for ln in out.splitlines():
                 cells = [c.strip() for c in re.split(r"[│┃|]", ln) if c.strip() != ""]
                 if len(cells) == 7 and cells[0] != "VER":
-                    rows.append("..." if cells[0] == "..." else cells[5])
+                    rows.append("..." if cells[0] == "..." else str(int(cells[5]) - BASE))
             return "rows" + "".join(" " + r for r in rows)
         xf = os.path.join(d, "def.xml")
         with open(xf, "w") as f:
@@ -104,7 +109,7 @@ def impl(line):
             return "out-of-range"
         m = re.findall(r"'SRC_SEQ_CTR': (\d+)", out)
         if len(m) == 1:
-            return f"shown {m[0]}"
+            return f"shown {int(m[0]) - BASE}"
         return f"err unparsed-output:{len(m)}"
 
 
